@@ -15,6 +15,8 @@
 
 """Handling for action callbacks."""
 from types import FrameType
+
+import deep.logging
 from typing import List
 
 from deep.api.tracepoint.trigger import Location
@@ -71,7 +73,11 @@ class CallbackContext(Location, ActionCallback):
         :return: True, to keep this callback until next match.
         """
         for callback in self.__callbacks:
-            callback.process(ctx, event, frame, arg)
+            try:
+                callback.process(ctx, event, frame, arg)
+            except Exception:
+                # one callback failing must not stop the others, or the processing of the event that completes them
+                deep.logging.exception("Failed to process callback %s", callback)
 
     @property
     def id(self) -> str:
